@@ -130,7 +130,7 @@ OPTS = {
                    emit_as_kwonlyargs=True, indent_level=2, emit_separating_tab=True, name="f_target"),
     "argparse": dict(emit_default_doc=False, word_wrap=False),
 }
-ALT_OPTS = {k: dict(v, emit_default_doc=not v["emit_default_doc"]) for k, v in OPTS.items()}
+ALT_OPTS = {k: dict(v, emit_default_doc=not v["emit_default_doc"], word_wrap=True) for k, v in OPTS.items()}
 
 
 def emit_or_exc(kind, ir, opts):
@@ -176,6 +176,33 @@ def run_sequences(ctx, ir0, feat, seqs, opts_table, base0, body, call=None, flip
             else:
                 tag, where = "outcome:{}->{}".format(baseline[kind][0], again[0]), str((baseline[kind], again))[:200]
             ctx.report(dict(base0, field="interference_between_fresh_copies", victim=kind, tag=tag, body=body, emit_call=bool(call),
+                            expected=where[:300], observed=""),
+                       {"ir": ir_jsonable(ir0), "feat": feat, "seq": [], "body": body, "body_variant": base0.get("body_variant") or 0,
+                        "alt": opts_table is ALT_OPTS, "call": bool(call), "flip": flip})
+            return
+    # ... and once more on a TWIN description (same shape, same lengths, every generated marker spelt zr instead of zq), again in
+    # the opposite order: state keyed by the text itself is then filled in a different order for the twin than for the original
+    def _twin(x):
+        if isinstance(x, str):
+            return x.replace("zq", "zr")
+        if isinstance(x, dict):
+            return type(x)((k, (v if k == "_internal" else _twin(v))) for k, v in x.items())
+        return x
+
+    twin = _twin(deepcopy(ir0))
+    for kind in reversed(order):
+        o = dict(opts_table[kind])
+        if kind == "class" and call:
+            o["emit_call"] = True
+        got = emit_or_exc(kind, deepcopy(twin), o)
+        got = (got[0], got[1].replace("zr", "zq")) if got[0] == "ok" else got
+        ctx.event("twin_description_repeats")
+        if got != baseline[kind]:
+            if got[0] == "ok" and baseline[kind][0] == "ok":
+                tag, where = drift_tag(baseline[kind][1], got[1])
+            else:
+                tag, where = "outcome:{}->{}".format(baseline[kind][0], got[0]), str((baseline[kind], got))[:200]
+            ctx.report(dict(base0, field="interference_between_equal_shaped_descriptions", victim=kind, tag=tag, body=body, emit_call=bool(call),
                             expected=where[:300], observed=""),
                        {"ir": ir_jsonable(ir0), "feat": feat, "seq": [], "body": body, "body_variant": base0.get("body_variant") or 0,
                         "alt": opts_table is ALT_OPTS, "call": bool(call), "flip": flip})
@@ -338,7 +365,7 @@ def run(ctx):
     ctx.require("contract:parse.function", 5)
     ctx.require("sequences", 50)
     ctx.require("sync_variants_compared", 6)
-    g = IRGen(ctx.rng, knobs(p_return=0.7, argparse_domain=False, p_return_over_params=0.5))
+    g = IRGen(ctx.rng, knobs(p_return=0.7, argparse_domain=False, p_return_over_params=0.5, p_long_summary=0.3, p_long_doc=0.25))
     n_irs = ctx.n(96, 800)
     all3 = list(itertools.product(ALL_KINDS, repeat=3))
     all4 = list(itertools.product(ALL_KINDS, repeat=4))
